@@ -475,6 +475,15 @@ void SoPlexBase<R>::_optimizeRational(volatile bool* interrupt)
    _hasOldFeasBasis = false;
    _hasOldUnbdBasis = false;
 
+   // the boosted solves overwrite the epsilons (and, with adapted tolerances, the floating-point tolerances) of the
+   // tolerances object shared by all components; restore the values given by the parameters for later solves
+   this->_tolerances->setEpsilon(realParam(SoPlexBase<R>::EPSILON_ZERO));
+   this->_tolerances->setEpsilonFactorization(realParam(SoPlexBase<R>::EPSILON_FACTORIZATION));
+   this->_tolerances->setEpsilonUpdate(realParam(SoPlexBase<R>::EPSILON_UPDATE));
+   this->_tolerances->setEpsilonPivot(realParam(SoPlexBase<R>::EPSILON_PIVOT));
+   this->_tolerances->setFloatingPointFeastol(realParam(SoPlexBase<R>::FPFEASTOL));
+   this->_tolerances->setFloatingPointOpttol(realParam(SoPlexBase<R>::FPOPTTOL));
+
    ///@todo set status to ABORT_VALUE if optimal solution exceeds objective limit
 
    if(_status == SPxSolverBase<R>::OPTIMAL || _status == SPxSolverBase<R>::INFEASIBLE
@@ -496,6 +505,18 @@ void SoPlexBase<R>::_optimizeRational(volatile bool* interrupt)
    // undo lifting
    if(boolParam(SoPlexBase<R>::LIFTING))
       _project(_solRational);
+
+   // report the objective value of the LP as entered: objective times primal plus the objective offset (the value
+   // computed during refinement omits the offset, and the pure precision-boosting path does not set it at all)
+   if(_status == SPxSolverBase<R>::OPTIMAL && _solRational._primal.dim() == numColsRational())
+   {
+      _solRational._objVal = _solRational._primal * _rationalLP->maxObj();
+
+      if(intParam(SoPlexBase<R>::OBJSENSE) == SoPlexBase<R>::OBJSENSE_MINIMIZE)
+         _solRational._objVal *= -1;
+
+      _solRational._objVal += Rational(realParam(SoPlexBase<R>::OBJ_OFFSET));
+   }
 
    // restore objective, bounds, and sides of Real LP in case they have been modified during iterative refinement
    _restoreLPReal();
